@@ -262,6 +262,33 @@ def angles(ctx):
             else:
                 ref = cands[0] if len(cands) == 1 else alg.Fn("min", tuple(cands))
                 ident(ctx, "C14.angles", f"{tag}: row {n}", got, ref, loc)
+        # domain guard: the stored quaternions are float32, so the dot product of two numerically identical unit quaternions can round
+        # above 1; every arccos on this path must see an argument that is bounded by construction
+        def bounded(e):
+            if isinstance(e, alg.Atom):
+                e = E.atom(e)
+            e = lift(e)
+            if e.is_const():
+                return -1 <= e.cval() <= 1
+            if not e.is_monomial():
+                return False
+            ((m_, c_),) = e.t.items()
+            if abs(c_) != 1 or len(m_) != 1 or m_[0][1] != 1:
+                return False
+            at = m_[0][0]
+            if at.kind == "fn:clip" and len(at.args) == 3 and at.args[1] != "none" and at.args[2] != "none":
+                lo, hi = lift(at.args[1]), lift(at.args[2])
+                return lo.is_const() and hi.is_const() and lo.cval() >= -1 and hi.cval() <= 1
+            if at.kind == "abs":
+                return bounded(at.args[0])
+            if at.kind in ("fn:min", "fn:max") and isinstance(at.args[0], tuple):
+                return all(bounded(t_) for t_ in at.args[0])
+            return False
+        acos = [a_ for n in range(N) for a_ in alg.atoms_of(lift(out[n]), deep=True) if a_.kind == "fn:arccos"]
+        bad = [a_ for a_ in acos if not bounded(a_.args[0])]
+        ctx.ob("C14.angles", f"{tag}: every arccos argument is clipped to [-1, 1]", bool(acos) and not bad,
+               (f"arccos({short(bad[0].args[0], 100)}): for numerically identical float32 grains the dot product can round above 1 and the angle becomes NaN"
+                if bad else f"{len(acos)} arccos term(s)"), loc)
     ctx.floor("C14.angles", 8)
     # mismatched stacks are rejected
     I = Interp(ctx.program)
@@ -483,36 +510,53 @@ def batching(ctx):
     dotted = "pydrex.diagnostics.misorientation_indices"
     loc = defloc(ctx, dotted)
     fn = ctx.program.require(dotted)
-    fors = [n for n in ast.walk(fn) if isinstance(n, ast.For) and isinstance(n.iter, ast.Call) and flow.dotted(n.iter.func) == "enumerate"]
-    good = 0
-    bad = []
-    for lp in fors:
-        inner = lp.iter.args[0] if lp.iter.args else None
-        if not (isinstance(inner, ast.Call) and isinstance(inner.func, ast.Attribute)):
-            continue
-        meth = inner.func.attr
-        over = inner.args[1] if len(inner.args) > 1 else None
-        idx = lp.target.elts[0].id if isinstance(lp.target, ast.Tuple) and isinstance(lp.target.elts[0], ast.Name) else None
-        val = lp.target.elts[1].id if isinstance(lp.target, ast.Tuple) and isinstance(lp.target.elts[1], ast.Name) else None
-        store_ok = any(isinstance(s, ast.Assign) and isinstance(s.targets[0], ast.Subscript) and isinstance(s.targets[0].slice, ast.Name)
-                       and s.targets[0].slice.id == idx and isinstance(s.value, ast.Name) and s.value.id == val for s in lp.body)
-        if meth in ("imap", "map") and isinstance(over, ast.Name) and over.id == fn.args.args[0].arg and store_ok:
-            good += 1
-        else:
-            bad.append((meth, lp.lineno))
-    unordered = [n.lineno for n in ast.walk(fn) if isinstance(n, ast.Attribute) and n.attr in ("imap_unordered", "apply_async", "map_async")]
-    ctx.ob("C14.batch-order", "pool branches", good >= 2 and not bad and not unordered,
-           f"{good} order-preserving loop(s); other distribution loops {bad}; unordered primitives at lines {unordered}", loc)
-    # the worker function carries the caller's lattice system and bins
-    part = [s for s in ast.walk(fn) if isinstance(s, ast.Call) and (flow.dotted(s.func) or "").split(".")[-1] == "partial"]
-    okp = bool(part) and all({k.arg: ast.unparse(k.value) for k in p.keywords}.get("system") == "system" and
-                             {k.arg: ast.unparse(k.value) for k in p.keywords}.get("bins") == "bins" and
-                             (flow.dotted(p.args[0]) or "").split(".")[-1] == "misorientation_index" for p in part)
-    used = [lp for lp in fors if isinstance(lp.iter.args[0], ast.Call) and lp.iter.args[0].args and isinstance(lp.iter.args[0].args[0], ast.Name)]
-    names = {t.id for s in ast.walk(fn) if isinstance(s, ast.Assign) and s.value in part for t in s.targets if isinstance(t, ast.Name)}
-    okp = okp and all(lp.iter.args[0].args[0].id in names for lp in used)
-    ctx.ob("C14.batch-order", "every worker computes misorientation_index with the caller's system and bins", okp,
-           f"{len(part)} partial(s) binding {[sorted(k.arg for k in p.keywords) for p in part]}", loc)
+    # multiprocessing branches (own pool / caller's pool), interpreted with an order-preserving stub pool and a recording stub worker:
+    # result[k] is the index of snapshot k, computed with the caller's lattice system and bins
+    calls = []
+
+    def mindex(I_, orientations, system=None, bins=None):
+        calls.append((orientations, system, bins))
+        return alg.sym(f"M<{orientations.flat[0]}>")
+
+    def mkpool():
+        p = Record(None, {}, label="Pool")
+        p.native_methods["imap"] = Native("imap", lambda I_, f_, seq, *a: [I_.call(f_, (x,)) for x in I_.iterate(seq)])
+        p.native_methods["map"] = p.native_methods["imap"]
+
+        def unordered(I_, f_, seq, *a):
+            return list(reversed([I_.call(f_, (x,)) for x in I_.iterate(seq)]))
+        p.native_methods["imap_unordered"] = Native("imap_unordered", unordered)   # any order is allowed: the stub returns the reverse
+        return p
+    unordered_used = [n.lineno for n in ast.walk(fn) if isinstance(n, ast.Attribute) and n.attr in ("apply_async", "map_async")]
+    for how in ("own pool", "caller's pool"):
+        del calls[:]
+        I = Interp(ctx.program, stubs={"pydrex.diagnostics.misorientation_index": Native("misorientation_index", mindex),
+                                       "pydrex.utils.default_ncpus": Native("default_ncpus", lambda I_: 2)})
+        mod = ctx.program.module("pydrex.diagnostics")
+        saved = {k: mod.globals_cache.get(k, None) for k in ("HAS_RAY", "Pool")}
+        had = {k: k in mod.globals_cache for k in saved}
+        mod.globals_cache["HAS_RAY"] = False
+        mod.globals_cache["Pool"] = Native("Pool", lambda I_, *a, **k: mkpool())
+        try:
+            stack = symarr("S", (3, 2, 3, 3))
+            sysm = I.resolve("pydrex.geometry.LatticeSystem").members["hexagonal"]
+            try:
+                out = I.call(public(ctx, I, dotted), (stack, sysm), {"bins": 7, "pool": None if how == "own pool" else mkpool()})
+            except RaiseSig as r:
+                ctx.ob("C14.batch-order", f"{how}: result k is the index of snapshot k", False, f"raises {r.exc.typename}", loc)
+                continue
+        finally:
+            for k in saved:
+                if had[k]:
+                    mod.globals_cache[k] = saved[k]
+                else:
+                    mod.globals_cache.pop(k, None)
+        want = [alg.sym(f"M<S[{k},0,0,0]>") for k in range(3)]
+        ok = isinstance(out, np.ndarray) and out.shape == (3,) and all(lift(a) == b for a, b in zip(out, want))
+        ctx.ob("C14.batch-order", f"{how}: result k is the index of snapshot k", ok and not unordered_used, f"returned {out!r}"[:200], loc)
+        okw = len(calls) == 3 and all(s_ is sysm and b_ == 7 for _, s_, b_ in calls)
+        ctx.ob("C14.batch-order", f"{how}: every worker gets the caller's lattice system and bins", okw,
+               f"worker calls: {[(getattr(s_, 'name', s_), b_) for _, s_, b_ in calls]}", loc)
     remote = [s for s in ast.walk(fn) if isinstance(s, ast.Call) and isinstance(s.func, ast.Attribute) and s.func.attr == "remote"]
     okr = all({k.arg: ast.unparse(k.value) for k in r.keywords}.get("system") == "system" and {k.arg: ast.unparse(k.value) for k in r.keywords}.get("bins") == "bins" for r in remote)
     ctx.ob("C14.batch-order", "the Ray branch forwards system and bins", okr, "", loc)
